@@ -6,7 +6,7 @@ use lrtable::{Action, StIdx, StateGraph, StateTable};
 
 use super::grammar::enc_sym;
 
-fn items_of(g: &YaccGrammar<u32>, is: &lrtable_itemset::Items) -> Vec<usize> {
+fn items_of<S>(g: &YaccGrammar<u32>, is: &std::collections::HashMap<(PIdx<u32>, cfgrammar::SIdx<u32>), vob::Vob, S>) -> Vec<usize> {
     let _ = g;
     let mut v = vec![is.len()];
     for ((p, d), ctx) in is.iter() {
@@ -19,14 +19,6 @@ fn items_of(g: &YaccGrammar<u32>, is: &lrtable_itemset::Items) -> Vec<usize> {
     v
 }
 
-/// the item map type of `Itemset` (its `items` field is public)
-pub mod lrtable_itemset {
-    pub type Items = std::collections::HashMap<
-        (cfgrammar::PIdx<u32>, cfgrammar::SIdx<u32>),
-        vob::Vob,
-        std::hash::BuildHasherDefault<fnv::FnvHasher>,
-    >;
-}
 
 pub fn act_str(a: Action<u32>) -> String {
     match a {
